@@ -240,8 +240,25 @@ class RF:
     def is_zero(self):
         return reduce_rf(self).n.is_zero()
 
-    def equals(self, o):
-        return (self - o).is_zero()
+    def equals(self, o, rel_tol=Fraction(1, 10 ** 13)):
+        """Identity of rational functions.  Coefficients are exact images of f64 literals; a constant the compiler folded
+        (`const A: f64 = PI / 6.`) carries one rounding that the same expression evaluated here from its literals does not, so
+        coefficients that agree to 1e-13 relative are the same constant."""
+        d = reduce_rf(self - o)
+        if d.n.is_zero():
+            return True
+        if not rel_tol:
+            return False
+        try:
+            ref = reduce_rf(self).n * reduce_rf(o).d
+            scale = max([abs(c) for c in ref.t.values()] + [abs(c) for c in (reduce_rf(o).n * reduce_rf(self).d).t.values()] + [Fraction(0)])
+            lead = max([abs(c) for c in (reduce_rf(self).d * reduce_rf(o).d).t.values()] + [Fraction(0)])
+            # d.n is normalised by reduce_rf; recompute the raw cross difference to compare on the same scale
+            raw = reduce_rf(self).n * reduce_rf(o).d - reduce_rf(o).n * reduce_rf(self).d
+            worst = max([abs(c) for c in raw.t.values()] + [Fraction(0)])
+            return scale > 0 and worst <= rel_tol * scale
+        except Exception:
+            return False
 
     def atoms(self):
         return self.n.atoms() | self.d.atoms()
